@@ -11,6 +11,7 @@ FALLBACK = """From Coq Require Import List String. Import ListNotations.
 From SV Require Import Model.SafeEval.
 Definition tables : Tables := mkTables [] [] [] [] KwIgnored false false false.
 Definition visit_before_compile := false.
+Definition builtins_blocked := false.
 Definition translation_failed := true.
 """
 
@@ -111,16 +112,37 @@ def translate():
         if not (isinstance(k, ast.Constant) and isinstance(v, ast.Name) and v.id == k.value):
             raise TranslationError("env entry %s is not name->same builtin" % ast.unparse(k))
         env_keys.append(k.value)
+    # env["__builtins__"] = {} (an empty mapping) in __init__, after the whitelisted functions: the interpreter's builtins are blocked
+    blocked = False
+    for n in ast.walk(init):
+        if isinstance(n, ast.Assign) and len(n.targets) == 1 and ast.unparse(n.targets[0]).replace('"', "'") == "env['__builtins__']":
+            if not (isinstance(n.value, ast.Dict) and not n.value.keys):
+                raise TranslationError("env['__builtins__'] is assigned something else than an empty mapping: " + ast.unparse(n.value))
+            blocked = True
+    if "__builtins__" in env_keys:
+        raise TranslationError("__builtins__ inside the env literal: unexpected shape")
     comp = [n for n in ev.body if isinstance(n, ast.FunctionDef) and n.name == "compile"][0]
-    stmts = [ast.unparse(s) for s in _body_wo_doc(comp)]
+    body = _body_wo_doc(comp)
+    # the parse / validate / compile statements may sit in the body of one leading try (its handlers only re-raise the
+    # expression error): order is judged on the flattened sequence
+    if body and isinstance(body[0], ast.Try):
+        for h in body[0].handlers:
+            if not (len(h.body) == 1 and _is_raise_expr_error(h.body[0])):
+                raise TranslationError("compile(): a handler of the leading try does something else than raising ExpressionError")
+        if body[0].orelse or body[0].finalbody:
+            raise TranslationError("compile(): leading try has else / finally")
+        flat = list(body[0].body) + list(body[1:])
+    else:
+        flat = list(body)
+    stmts = [ast.unparse(s) for s in flat]
     # order: try-parse ; visit ; compile ; def _fn ; return
     try:
         i_visit = next(i for i, s in enumerate(stmts) if s == "_SafeVisitor(allowed_names).visit(tree)")
         i_comp = next(i for i, s in enumerate(stmts) if s.startswith("code = compile(tree"))
     except StopIteration:
         raise TranslationError("compile(): visit / compile statements not found")
-    if not stmts[0].startswith("try:\n    tree = ast.parse(expr, mode='eval')"):
-        raise TranslationError("compile(): does not start with ast.parse(expr, mode='eval')")
+    if stmts[0] != "tree = ast.parse(expr, mode='eval')" or not isinstance(body[0], ast.Try):
+        raise TranslationError("compile(): does not start with a try around ast.parse(expr, mode='eval')")
     visit_before = i_visit < i_comp
     fn = [n for n in comp.body if isinstance(n, ast.FunctionDef) and n.name == "_fn"]
     if len(fn) != 1 or ast.unparse(fn[0].body[-1]) != "return eval(code, self.env, kwargs)":
@@ -141,7 +163,8 @@ Definition tables : Tables :=
     %s
     %s %s %s.
 Definition visit_before_compile : bool := %s.
+Definition builtins_blocked : bool := %s.
 Definition translation_failed := false.
 """ % (SRC, cq_list(allowed_nodes, cq_str), cq_list(allowed_funcs, cq_str), cq_list(env_keys, cq_str),
-       cq_list(visited, cq_str), kwpolicy, cq_bool(True), cq_bool(True), cq_bool(True), cq_bool(visit_before))
+       cq_list(visited, cq_str), kwpolicy, cq_bool(True), cq_bool(True), cq_bool(True), cq_bool(visit_before), cq_bool(blocked))
     return text, [path]
